@@ -8,7 +8,7 @@ SRC=$(cd "$1" && pwd -P); OUT="$2"; shift 2
 V=$(cd "$(dirname "$0")/.." && pwd -P)
 mkdir -p "$OUT/home"
 rsync -a --delete --exclude target "$V/Cargo.toml" "$V/Cargo.lock" "$V/vsched" "$V/dv" "$V/desync-verif" "$OUT/"
-sed -i "s#path = \"/repo/src/lib.rs\"#path = \"$SRC/src/lib.rs\"#" "$OUT/desync-verif/Cargo.toml"
+sed -i "s#path = \"[^\"]*/src/lib.rs\"#path = \"$SRC/src/lib.rs\"#" "$OUT/desync-verif/Cargo.toml"
 [ -d "$OUT/target" ] || cp -r "$V/target" "$OUT/target"
 ( cd "$OUT" && CARGO_NET_OFFLINE=true cargo build --release --offline -p dv 2>&1 | grep -E "^error" -A5 | head -20 )
 [ -x "$OUT/target/release/dv" ] || { echo "BUILD-FAILED"; exit 2; }
